@@ -346,7 +346,7 @@ func init() {
 		"(github.com/inconshreveable/log15.Logger).Info", "(github.com/inconshreveable/log15.Logger).Debug", "(github.com/inconshreveable/log15.Logger).Warn",
 		"(github.com/inconshreveable/log15.Logger).Error", "(github.com/inconshreveable/log15.Logger).Crit", "(github.com/inconshreveable/log15.Logger).New",
 		"(common.Logger).Info", "(common.Logger).Debug", "(common.Logger).Warn", "(common.Logger).Error", "(common.Logger).Crit", "(common.Logger).New",
-		"fmt.Sprintf", "fmt.Sprint", "fmt.Println", "fmt.Printf", "fmt.Sprintln", "regexp.MatchString", "(*encoding/base64.Encoding).DecodeString", "time.Now", "time.Since", "(time.Time).Sub", "(time.Time).Add", "time.Unix",
+		"fmt.Sprintf", "fmt.Sprint", "fmt.Println", "fmt.Printf", "fmt.Sprintln", "regexp.MatchString", "crypto/ed25519.GenerateKey", "crypto/ed25519.Sign", "github.com/tyler-smith/go-bip39.NewMnemonic", "github.com/tyler-smith/go-bip39.NewSeed", "crypto/hmac.New", "(hash.Hash).Write", "(time.Time).UTC", "(*regexp.Regexp).MatchString", "strings.TrimRight", "strings.TrimLeft", "strings.TrimSpace", "bytes.NewReader", "(*encoding/base64.Encoding).DecodeString", "time.Now", "time.Since", "(time.Time).Sub", "(time.Time).Add", "time.Unix",
 		"(github.com/inconshreveable/log15.Logger).Trace", "github.com/inconshreveable/log15.Error", "github.com/inconshreveable/log15.Info", "github.com/inconshreveable/log15.Warn", "github.com/inconshreveable/log15.Debug", "github.com/inconshreveable/log15.Crit", "(time.Duration).Seconds",
 		"(*sync.WaitGroup).Add", "(*sync.WaitGroup).Done", "(*sync.WaitGroup).Wait", "runtime/debug.Stack", "strings.ToLower", "strings.ToUpper",
 		"encoding/hex.EncodeToString", "strconv.Itoa", "strconv.FormatUint", "strconv.FormatInt"} {
@@ -430,6 +430,92 @@ func init() {
 		r := App("spec!sigValid", SBool, bv(a[0]), bv(a[1]), bv(a[2]))
 		fr.C.addFact(Implies(r, And(Eq(a[2].Len, Num(64)), Eq(a[0].Len, Num(32)))))
 		return boolVal(r), st
+	})
+	// strings.Split: at least one element
+	reg("strings.Split", nil, func(fr *Frame, st *State, a []*Val, cc *ssa.CallCommon, pos token.Pos) (*Val, *State) {
+		v := fr.freshResult(cc.Signature(), "strings.Split")
+		fr.C.addFact(Le(Num(1), v.Len))
+		na := Fresh("alloc", SInt)
+		nonNegSyms[na.Name] = true
+		fr.C.addFact(Le(st.Alloc, na))
+		st.Alloc = na
+		fr.C.allocFacts(v, st.Alloc)
+		return v, st
+	})
+	// strconv.ParseUint(s, base, bitSize): on success the value fits bitSize bits (constant bitSize)
+	reg("strconv.ParseUint", nil, func(fr *Frame, st *State, a []*Val, cc *ssa.CallCommon, pos token.Pos) (*Val, *State) {
+		v := fr.freshResult(cc.Signature(), "strconv.ParseUint")
+		if a[2].X.IsConst() && a[2].X.Val.IsInt64() && a[2].X.Val.Int64() > 0 && a[2].X.Val.Int64() <= 64 {
+			fr.C.addFact(Implies(Eq(v.Fs[1].X, Num(0)), Lt(v.Fs[0].X, Pow2(uint(a[2].X.Val.Int64())))))
+		}
+		return v, st
+	})
+	// ---- cryptography used by the wallet (external code, ASSUMED to be functions of their inputs) --------------------------
+	// argon2.IDKey(password, salt, time, memory, threads, keyLen): keyLen bytes, a function of all six arguments
+	reg("golang.org/x/crypto/argon2.IDKey", []string{"S:byte"}, func(fr *Frame, st *State, a []*Val, cc *ssa.CallCommon, pos token.Pos) (*Val, *State) {
+		hp := st.heapGet("S:byte", SArr(SInt, SArr(SInt, SInt)))
+		bv := func(v *Val) *Term { return fr.C.bytesVal(Select(hp, v.X), v.Off, v.Len) }
+		out := fr.makeSlice(st, res0(cc), a[5].X, a[5].X)
+		content := App("argon2.bytes", SArr(SInt, SInt), bv(a[0]), bv(a[1]), a[2].X, a[3].X, a[4].X, a[5].X)
+		h2 := st.heapGet("S:byte", SArr(SInt, SArr(SInt, SInt)))
+		st.heapSet("S:byte", Store(h2, out.X, content))
+		fr.C.addFact(Eq(fr.C.bytesVal(content, Num(0), a[5].X), App("spec!argon2v", SInt, bv(a[0]), bv(a[1]), a[2].X, a[3].X, a[4].X, a[5].X)))
+		return out, st
+	})
+	// aes.NewCipher(key): a block cipher identified by the key bytes; fails unless the key has 16, 24 or 32 bytes
+	reg("crypto/aes.NewCipher", nil, func(fr *Frame, st *State, a []*Val, cc *ssa.CallCommon, pos token.Pos) (*Val, *State) {
+		hp := st.heapGet("S:byte", SArr(SInt, SArr(SInt, SInt)))
+		kv := fr.C.bytesVal(Select(hp, a[0].X), a[0].Off, a[0].Len)
+		okLen := Or(Eq(a[0].Len, Num(16)), Eq(a[0].Len, Num(24)), Eq(a[0].Len, Num(32)))
+		blk := App("aes.block", SInt, kv)
+		fr.C.addFact(Lt(Num(0), blk))
+		fr.C.addFact(Eq(App("spec!cipherKey", SInt, blk), kv))
+		e := Fresh("aes.err", SInt)
+		fr.C.addFact(Eq(Eq(e, Num(0)), okLen))
+		rt := cc.Signature().Results()
+		return &Val{K: KTuple, T: rt, Fs: []*Val{{K: KIface, T: rt.At(0).Type(), X: Ite(okLen, blk, Num(0))}, {K: KIface, T: rt.At(1).Type(), X: e}}}, st
+	})
+	// cipher.NewGCM(block): the AEAD of that block cipher (standard nonce and tag sizes); never fails for AES
+	reg("crypto/cipher.NewGCM", nil, func(fr *Frame, st *State, a []*Val, cc *ssa.CallCommon, pos token.Pos) (*Val, *State) {
+		aead := App("gcm.of", SInt, a[0].X)
+		fr.C.addFact(Lt(Num(0), aead))
+		fr.C.addFact(Eq(App("spec!cipherKey", SInt, aead), App("spec!cipherKey", SInt, a[0].X)))
+		rt := cc.Signature().Results()
+		return &Val{K: KTuple, T: rt, Fs: []*Val{{K: KIface, T: rt.At(0).Type(), X: aead}, {K: KIface, T: rt.At(1).Type(), X: Num(0)}}}, st
+	})
+	// AEAD.Seal(dst, nonce, plaintext, ad) with dst == nil: ciphertext||tag = gcmSeal(key, nonce, plaintext, ad)
+	reg("(crypto/cipher.AEAD).Seal", []string{"S:byte"}, func(fr *Frame, st *State, a []*Val, cc *ssa.CallCommon, pos token.Pos) (*Val, *State) {
+		hp := st.heapGet("S:byte", SArr(SInt, SArr(SInt, SInt)))
+		bv := func(v *Val) *Term { return fr.C.bytesVal(Select(hp, v.X), v.Off, v.Len) }
+		if !(a[1].Len.IsConst() && a[1].Len.Val.Sign() == 0) {
+			unsup("AEAD.Seal with a non-nil dst")
+		}
+		ln := Add(a[3].Len, Num(16))
+		out := fr.makeSlice(st, res0(cc), ln, ln)
+		content := Fresh("gcm.sealed", SArr(SInt, SInt))
+		h2 := st.heapGet("S:byte", SArr(SInt, SArr(SInt, SInt)))
+		st.heapSet("S:byte", Store(h2, out.X, content))
+		fr.C.addFact(Eq(fr.C.bytesVal(content, Num(0), ln), App("spec!gcmSeal", SInt, App("spec!cipherKey", SInt, a[0].X), bv(a[2]), bv(a[3]), bv(a[4]))))
+		return out, st
+	})
+	// AEAD.Open(dst, nonce, ciphertext, ad) with dst == nil: succeeds iff gcmValid(key, nonce, ciphertext, ad); then the
+	// plaintext is gcmOpen(key, nonce, ciphertext, ad)
+	reg("(crypto/cipher.AEAD).Open", []string{"S:byte"}, func(fr *Frame, st *State, a []*Val, cc *ssa.CallCommon, pos token.Pos) (*Val, *State) {
+		hp := st.heapGet("S:byte", SArr(SInt, SArr(SInt, SInt)))
+		bv := func(v *Val) *Term { return fr.C.bytesVal(Select(hp, v.X), v.Off, v.Len) }
+		key := App("spec!cipherKey", SInt, a[0].X)
+		valid := App("spec!gcmValid", SBool, key, bv(a[2]), bv(a[3]), bv(a[4]))
+		ln := Fresh("gcm.opened#len", SInt)
+		fr.C.addFact(And(Le(Num(0), ln), Le(ln, a[3].Len)))
+		rt := cc.Signature().Results()
+		out := fr.makeSlice(st, rt.At(0).Type(), ln, ln)
+		content := Fresh("gcm.opened", SArr(SInt, SInt))
+		h2 := st.heapGet("S:byte", SArr(SInt, SArr(SInt, SInt)))
+		st.heapSet("S:byte", Store(h2, out.X, content))
+		fr.C.addFact(Implies(valid, Eq(fr.C.bytesVal(content, Num(0), ln), App("spec!gcmOpen", SInt, key, bv(a[2]), bv(a[3]), bv(a[4])))))
+		e := Fresh("gcm.err", SInt)
+		fr.C.addFact(Eq(Eq(e, Num(0)), valid))
+		return &Val{K: KTuple, T: rt, Fs: []*Val{out, {K: KIface, T: rt.At(1).Type(), X: e}}}, st
 	})
 	// time.Time: an instant is identified by an uninterpreted nanosecond count of its (wall, ext) fields
 	reg("(time.Time).UnixNano", nil, func(fr *Frame, st *State, a []*Val, cc *ssa.CallCommon, pos token.Pos) (*Val, *State) {
